@@ -302,6 +302,13 @@ def deepBound (pops : List Pop) : Rat :=
   deepEps (deepDepth pops) (maxOf (pops.map (·.nseq)))
     + (pops.length : Rat) * deepDelta (deepDepth pops) (maxOf (pops.map (·.nsub)))
 
+/-- entry-wise deep-coverage constant (`C18_deep_coverage_entrywise`): every entry of corrected − projected is at most
+    (deepEntryBound + σ)·Σ_i |model_i|; (1 + D)·2^{-D} bounds the no-call probability, nsub_p·2^{-D} the entries of one
+    population's kernel minus its projection matrix -/
+def deepEntryBound (pops : List Pop) : Rat :=
+  (1 + ((deepDepth pops : Nat) : Rat)) * (1 / 2) ^ (deepDepth pops)
+    + lsum (pops.map fun p => ((p.nsub : Nat) : Rat) * (1 / 2) ^ (deepDepth pops))
+
 /-! ### the simulated regime: `simulate_GATK_multisample_calling` as a deterministic function of its random draws
 
 Everything random in the simulator is a *draw*: the depth of every individual at every locus (`cov_sampling.rvs`), the number of
